@@ -99,8 +99,20 @@ OriginalEv(e) ==
      ELSE Verdict(e.rid, "C11", "ok", e.kind)
   /\ UNCHANGED <<cache, loaded, tab>>
 
+(* the instance under test is created after another instance with other options: the native rewriter must be   *)
+(* handed exactly the configuration the caller gave (nothing of the other instance leaks into it)              *)
+NewEv(e) ==
+  /\ e.ev = "new"
+  /\ IF e.cfg_same THEN Verdict(e.rid, "C16", "ok", "configuration handed on as given")
+     ELSE Verdict(e.rid, "C16", "reject", <<"the native rewriter was created with a configuration the caller did not give", e.cfg_got>>)
+  /\ UNCHANGED <<cache, loaded, tab>>
+
+(* many other files were rewritten: nothing changes for the files of the history *)
+BulkEv(e) == e.ev = "bulk" /\ (IF e.threw THEN Verdict(e.rid, "C11", "reject", "rewriting other files threw") ELSE TRUE)
+             /\ UNCHANGED <<cache, loaded, tab>>
+
 Next == /\ l <= Len(Recs)
-        /\ LET e == Recs[l] IN InitEv(e) \/ RewriteEv(e) \/ ThrowEv(e) \/ ProbeEv(e) \/ OriginalEv(e)
+        /\ LET e == Recs[l] IN InitEv(e) \/ RewriteEv(e) \/ ThrowEv(e) \/ ProbeEv(e) \/ OriginalEv(e) \/ NewEv(e) \/ BulkEv(e)
         /\ l' = l + 1
 Spec == Init /\ [][Next]_vars
 AllConsumed == TLCGet("stats").diameter - 1 = Len(Recs)
